@@ -33,16 +33,25 @@ Theorem C16_repr_roundtrip_in_context : forall v rest n, wf_val v = true -> vsiz
 Proof. exact repr_roundtrip_ctx. Qed.
 Print Assumptions C16_repr_roundtrip_in_context.
 
-(* the module round trip; guards = complements of the two finding classes, as booleans *)
+(* defaults are emitted as displays (fix 060db67): every default value graphql-core can build from an SDL or
+   introspection literal, +-inf included, evaluates back to itself *)
+Theorem C16_default_value_roundtrip : forall v, dv_val v = true -> ev_val (gen_dv v) = Some v.
+Proof. exact ev_val_gen_dv. Qed.
+Print Assumptions C16_default_value_roundtrip.
+
+(* the module round trip.  First hypothesis = validity of the schema record (names resolve, maps have
+   distinct keys, constants are values: dv_val = py_val minus nan, which no literal denotes; non-finite
+   floats are INSIDE since the fix).  Second = complement of the open finding
+   C16-typemap-name-shadows-import. *)
 Theorem C16_schema_roundtrip_partial : forall S tm sn,
-  wf_gen finite_val S = true ->                 (* valid_fschema and no non-finite float constant *)
-  mem_chars tm BUILTIN_NAMES = false ->         (* type-map variable not named like an import *)
+  wf_gen dv_val S = true ->
+  mem_chars tm BUILTIN_NAMES = false ->
   eval_module (gen_module S tm sn) = Some (strip_std S).
 Proof. exact schema_roundtrip_guarded. Qed.
 Print Assumptions C16_schema_roundtrip_partial.
 
-Theorem C16_guard_is_valid_and_finite : forall S, wf_gen finite_val S = true -> valid_fschema S = true.
-Proof. exact finite_is_valid. Qed.
+Theorem C16_guard_is_valid : forall S, wf_gen dv_val S = true -> valid_fschema S = true.
+Proof. exact guard_is_valid. Qed.
 
 (* name resolution: every non-standard name of the source type map is a key of the emitted map, bound to
    an object of that name whose class is the one written in the cast; filtering the standard types out
@@ -66,7 +75,9 @@ Print Assumptions C16_type_reference_roundtrip.
 Theorem C16_names_used : forall S tm sn, assign_targets (gen_module S tm sn) = [tm; sn].
 Proof. exact names_used. Qed.
 
-(* ---- refutations of the full statements on the faithful model ---- *)
+(* ---- refutations ---- *)
+(* a fact about repr (CPython) that stays true; since 060db67 the generator no longer relies on it for
+   nested values *)
 Theorem C16_repr_roundtrip_refuted_nonfinite : ~ C16_repr_roundtrip_full.
 Proof.
   intro H. specialize (H (PList [PFloat (s2l "inf")]) eq_refl). vm_compute in H. discriminate.
@@ -74,21 +85,22 @@ Qed.
 Print Assumptions C16_repr_roundtrip_refuted_nonfinite.
 
 Definition c := s2l.
+(* regression witness of the FIXED finding C16-nonfinite-float-nested: now inside the theorem *)
 Definition S_inf : fschema := {|
   s_types := [ {| t_name := c "J"; t_desc := None; t_def := DScalar None |};
                {| t_name := c "Query"; t_desc := None;
                   t_def := DObject [] [ {| f_name := c "f"; f_type := TNamed (c "Int");
                     f_args := [ {| a_name := c "a"; a_type := TNamed (c "J");
-                                   a_default := Some (PList [PFloat (c "inf")]);
+                                   a_default := Some (PList [PFloat (c "inf"); PDict [(c "k", PFloat (c "-inf"))]]);
                                    a_desc := None; a_depr := None |} ];
                     f_desc := None; f_depr := None |} ] |} ];
   s_query := Some (c "Query"); s_mutation := None; s_subscription := None;
   s_directives := []; s_desc := None |}.
 
-Theorem C16_schema_roundtrip_refuted_nonfinite : exists S tm sn,
-  valid_fschema S = true /\ mem_chars tm BUILTIN_NAMES = false /\
-  eval_module (gen_module S tm sn) = None.
-Proof. exists S_inf, (c "type_map"), (c "schema"). vm_compute. auto. Qed.
+Example C16_nonfinite_regression :
+  wf_gen dv_val S_inf = true /\
+  eval_module (gen_module S_inf (c "type_map") (c "schema")) = Some (strip_std S_inf).
+Proof. vm_compute. auto. Qed.
 
 Definition S_min : fschema := {|
   s_types := [ {| t_name := c "Query"; t_desc := None;
@@ -98,12 +110,13 @@ Definition S_min : fschema := {|
   s_directives := []; s_desc := None |}.
 
 Theorem C16_schema_roundtrip_refuted_shadow : exists S tm sn,
-  wf_gen finite_val S = true /\ eval_module (gen_module S tm sn) = None.
+  wf_gen dv_val S = true /\ eval_module (gen_module S tm sn) = None.
 Proof. exists S_min, (c "cast"), (c "schema"). vm_compute. auto. Qed.
 
+(* the full statement (every name) is false of the faithful model: the open finding *)
 Theorem C16_schema_roundtrip_full_refuted : ~ C16_schema_roundtrip_full.
 Proof.
-  intro H. specialize (H S_inf (c "type_map") (c "schema") eq_refl). vm_compute in H. discriminate.
+  intro H. specialize (H S_min (c "cast") (c "schema") eq_refl). vm_compute in H. discriminate.
 Qed.
 Print Assumptions C16_schema_roundtrip_full_refuted.
 
@@ -138,7 +151,7 @@ Definition S_rich : fschema := {|
 line") |}.
 
 Example C16_guard_satisfiable :
-  wf_gen finite_val S_rich = true /\ mem_chars (c "type_map") BUILTIN_NAMES = false /\
+  wf_gen dv_val S_rich = true /\ mem_chars (c "type_map") BUILTIN_NAMES = false /\
   List.length (user_types S_rich) = 6 /\
   eval_module (gen_module S_rich (c "type_map") (c "schema")) = Some (strip_std S_rich).
 Proof. vm_compute. repeat split. Qed.
